@@ -362,6 +362,21 @@ def shrink(case):
         yield ["range", h[:i] + h[i + 1:], size]
 
 
+def extra_obligations(tier):
+    """FileResponseMixin.parse_range is translated to Gallina from the source in BAIZE_REPO as it is now (tools/py2coq_c03.py;
+    re.findall with the model's pattern is the model's scan_pairs, int() on a run of digits the model's digits_val / too_long),
+    and coqc re-checks C03/Translated.v (translated function = C03.Model.parse_range for every header and every size: same
+    list, MalformedRangeHeader / RangeNotSatisfiable exactly when the model says Malformed / Unsatisfiable) against the fresh
+    definition.  A source shape the translator refuses is not applicable (no alarm).  With it: C03/PyLib.v, Lib/PyStr.v and
+    Lib/PyList.v compared with the interpreter by evaluation."""
+    import importlib.util
+    import os
+    spec = importlib.util.spec_from_file_location("py2coq_c03", os.path.join(core.VERIF, "tools", "py2coq_c03.py"))
+    tr = importlib.util.module_from_spec(spec)
+    spec.loader.exec_module(tr)
+    return tr.obligations(core.REPO, core.VERIF)
+
+
 if __name__ == "__main__":
     import sys
     core.main(sys.modules[__name__])
